@@ -38,6 +38,9 @@ type opIn struct {
 	Old  string `json:"old,omitempty"` // cas expected
 	Lvl  string `json:"level,omitempty"`
 	Node string `json:"node"`
+	// TmoMs: the request carries ?timeout=<TmoMs>ms (0 = default): a node that
+	// forwards it gives up on a slow leader after that time
+	TmoMs int `json:"timeout_ms,omitempty"`
 }
 
 type opOut struct {
@@ -683,6 +686,11 @@ func runHistory(c *vf.Ctx, caseNo int, dir string) (h histOut) {
 						in = opIn{Kind: "append", Key: aoKey, Arg: uniq}
 					}
 				}
+				if cr.IntN(8) == 0 {
+					// impatient request: when applies are slow the forwarding node abandons
+					// the exchange with the leader, which goes on to execute it
+					in.TmoMs = 60 + cr.IntN(240)
+				}
 				in.Node = node.Name
 				idx := recd.begin(ci, in)
 				out, returned := doOp(cl, node, in)
@@ -1018,7 +1026,11 @@ func runHistory(c *vf.Ctx, caseNo int, dir string) (h histOut) {
 func doOp(cl *hcluster.Cluster, node *hcluster.Node, in opIn) (opOut, bool) {
 	switch in.Kind {
 	case "read":
-		rr := cl.Do(node, "GET", fmt.Sprintf("/db/query?level=%s&q=%s", in.Lvl, url.QueryEscape(fmt.Sprintf("SELECT v FROM kv WHERE k=%d", in.Key))), nil, nil)
+		tmo := ""
+		if in.TmoMs > 0 {
+			tmo = fmt.Sprintf("&timeout=%dms", in.TmoMs)
+		}
+		rr := cl.Do(node, "GET", fmt.Sprintf("/db/query?level=%s%s&q=%s", in.Lvl, tmo, url.QueryEscape(fmt.Sprintf("SELECT v FROM kv WHERE k=%d", in.Key))), nil, nil)
 		if rr.Err != nil || rr.Status != 200 {
 			return opOut{Unknown: true, Note: note(rr)}, false
 		}
@@ -1039,7 +1051,11 @@ func doOp(cl *hcluster.Cluster, node *hcluster.Node, in opIn) (opOut, bool) {
 		}
 		// Every write carries its unique token into an append-only oplog table in the
 		// same transaction, so that a request applied more than once is observable.
-		rr := cl.PostJSON(node, "/db/execute?transaction", []any{[]any{"INSERT INTO oplog(tok) VALUES(?)", in.Arg}, stmt})
+		path := "/db/execute?transaction"
+		if in.TmoMs > 0 {
+			path += fmt.Sprintf("&timeout=%dms", in.TmoMs)
+		}
+		rr := cl.PostJSON(node, path, []any{[]any{"INSERT INTO oplog(tok) VALUES(?)", in.Arg}, stmt})
 		if rr.Err != nil {
 			return opOut{Unknown: true, Note: note(rr)}, false
 		}
